@@ -1,7 +1,8 @@
 (* C04 -- detailed_validation changes only error reporting, never acceptance or results. *)
 From V.Model Require Import Base Templates.
 From V.Gen Require Import GenSrc.
-From V.Proofs Require Import TemplatesProofs SrcObligationsGen.
+From V.Model Require Import Conv.
+From V.Proofs Require Import TemplatesProofs SrcObligationsGen ConvAgree ConvCfg.
 
 (* Class level, for the template flags translated from the current source.
    For EVERY payload value type V, field converter K, class definition fs
@@ -35,6 +36,24 @@ Theorem C04_generation :
     fast_compiles V opt ov src_kw_last fs = true.
 Proof. intros. rewrite src_fast_kw_last. reflexivity. Qed.
 Print Assumptions C04_generation.
+
+(* Nested.  For EVERY environment of classes (attributes all __init__ arguments) and enums, every type
+   expression of the nested universe (Model/Conv.v), EVERY input whatsoever and every amount of fuel: the
+   same converter class with detailed validation on and off either both reject the input or both accept it
+   with the same result -- through every collection loop (whose detailed and fast variants check things in
+   a different order), heterogeneous tuples, mappings, Optional, NewType, Annotated and classes at any
+   depth.  (forbid_extra_keys off; with it on, the class level is C04_templates_agree / C10.) *)
+Theorem C04_nested_modes_agree :
+  forall (E : env) (gen dv1 dv2 : bool),
+    (forall c cd, e_class E c = Some cd ->
+       wf val (topt (mk_cfg gen dv1 false false) c) nov (cd_fields cd) /\ (forall f, In f (cd_fields cd) -> f_init f = true)) ->
+    forall (n : nat) (t : ty) (o : val),
+      to_opt (structure E (mk_cfg gen dv1 false false) n t o) = to_opt (structure E (mk_cfg gen dv2 false false) n t o).
+Proof.
+  intros E gen dv1 dv2 Henv n t o.
+  apply structure_agree; [reflexivity | reflexivity | reflexivity | reflexivity | apply mk_cfg_recheck | apply mk_cfg_recheck | apply mk_cfg_kw_last | apply mk_cfg_kw_last | exact Henv | left; reflexivity].
+Qed.
+Print Assumptions C04_nested_modes_agree.
 
 (* non-vacuity: kw_only before positional, a default, an init=False attribute, a converter;
    a payload both accept, and one (bad value for the init=False attribute) both reject *)
